@@ -7,7 +7,7 @@ there; removed afterwards), so /repo is not touched at all."""
 import json, os, re, subprocess, sys
 VERIF = os.path.dirname(os.path.dirname(os.path.abspath(__file__)))
 REPO = os.environ.get("VERIF_REPO", "/repo")
-RELATED = {"C01": ["C09"], "C10": ["C07"], "C09": ["C01"], "C20": [], "C03": [], "C02": ["C11"], "C11": ["C02"], "C04": ["C18"], "C16": [], "C14": ["C01"]}
+RELATED = {"C01": ["C09"], "C10": ["C07"], "C09": ["C01"], "C20": [], "C03": ["C09"], "C02": ["C11"], "C11": ["C02"], "C04": ["C18"], "C16": [], "C14": ["C01"]}
 claimed = {c["property_id"] for c in json.load(open(os.path.join(VERIF, "MANIFEST.json")))["checks"]}
 args = sys.argv[1:]
 NSCRATCH = 0
@@ -28,7 +28,7 @@ env = dict(os.environ, VERIF_EVIDENCE_DIR="/tmp/seed-matrix-evidence")
 all_ids = []
 for prop in sorted(os.listdir(os.path.join(VERIF, "seeded"))):
     d = os.path.join(VERIF, "seeded", prop)
-    if os.path.isdir(d) and (not want or prop in want):
+    if os.path.isdir(d) and re.match(r"C\d\d$", prop) and (not want or prop in want):
         all_ids += ["%s/%s" % (prop, n) for n in sorted(os.listdir(d)) if os.path.exists(os.path.join(d, n, "patch.diff"))]
 
 
